@@ -122,7 +122,7 @@ func (c05) Build(tier string, seed uint64) []any {
 			cs = append(cs, c)
 		}
 	}
-	nGrid, nRand := 300, 10
+	nGrid, nRand := 1000, 30
 	if th {
 		nGrid, nRand = 9600, 600
 	}
